@@ -113,6 +113,8 @@ theorem buildBody_spec (junk : UInt8) (buf : Option Bytes) (data : Bytes) (off t
       · rw [if_pos hc]
         exact ⟨b, rfl, by omega, by intro b' hb' i hi; cases hb'; rfl⟩
       · rw [if_neg hc]
+        have hnl : ¬ (off + data.length < b.length) := by omega
+        simp only [if_neg hnl]
         refine ⟨resizeBin junk b (off + data.length), rfl, ?_, ?_⟩
         · rw [resizeBin_length]; omega
         · intro b' hb' i hi
